@@ -1,7 +1,18 @@
 #!/bin/bash
 # usage: withpatch.sh <patch.diff> <command...>   — apply a patch to /repo, run the command, always undo
 P="$(realpath "$1")"; shift
-git -C /repo apply "$P" || { echo "patch does not apply"; exit 3; }
+cd /repo
+if ! git apply "$P" 2>/dev/null; then
+  if ! git apply -3 "$P" >/dev/null 2>&1; then
+    git checkout -q -- . 2>/dev/null; git reset -q 2>/dev/null
+    if ! patch -p1 -s -F3 --no-backup-if-mismatch < "$P"; then
+      echo "patch does not apply"; git checkout -q -- .; git clean -fdq -e target; exit 3
+    fi
+  fi
+  git reset -q 2>/dev/null
+fi
+if grep -rq '^<<<<<<<' --include=*.rs ractor ractor_cluster ractor_cluster_derive 2>/dev/null; then echo "patch does not apply (conflict)"; git checkout -q -- .; git clean -fdq -e target; exit 3; fi
+cd - >/dev/null
 "$@"; rc=$?
-git -C /repo checkout -- . ; git -C /repo clean -fdq -e target >/dev/null 2>&1
+git -C /repo checkout -q -- . ; git -C /repo clean -fdq -e target >/dev/null 2>&1
 exit $rc
